@@ -170,6 +170,13 @@ impl WriteStallController {
 			|| counts.l0_files >= self.thresholds.l0_file_limit
 	}
 
+	/// Number of L0 files if that count alone is at its stall limit, `None` otherwise.
+	/// (Only a compaction out of L0 lifts that stall.)
+	pub fn l0_files_at_stall_limit(&self) -> Option<usize> {
+		let l0_files = self.provider.get_stall_counts().l0_files;
+		(l0_files >= self.thresholds.l0_file_limit).then_some(l0_files)
+	}
+
 	/// Get current counts from the provider (for determining stall reason).
 	#[allow(dead_code)]
 	pub fn provider_counts(&self) -> StallCounts {
